@@ -499,6 +499,23 @@ func (dec *Decoder) List(f func() error) (isList bool, err error) {
 	}
 }
 
+// EnterNested accounts for one level of nesting in a parser that recurses by
+// itself rather than through List, so that it is bound by the same depth limit.
+// Each call must be paired with a call to LeaveNested, even when it returns
+// false (the decoder error is set in that case).
+func (dec *Decoder) EnterNested() bool {
+	dec.listDepth++
+	if dec.listDepth >= maxListDepth {
+		return dec.returnErr(fmt.Errorf("imapwire: exceeded max depth"))
+	}
+	return true
+}
+
+// LeaveNested undoes EnterNested.
+func (dec *Decoder) LeaveNested() {
+	dec.listDepth--
+}
+
 func (dec *Decoder) ExpectList(f func() error) error {
 	isList, err := dec.List(f)
 	if err != nil {
